@@ -403,6 +403,14 @@ fn main() {
                 run.report(v);
             }
         }
+        // the same numeral as a JSON string (numeric strings of any length)
+        let quoted = format!("\"{}\"", docs[i]);
+        for e in ["BigDecimal", "json_num"] {
+            t.transitions += 1;
+            if let Some(v) = check_doc(e, &quoted) {
+                run.report(v);
+            }
+        }
         if i % 200 == 0 {
             run.sample(|| json!({"kind": "json", "entry": "json_num", "doc": if docs[i].len() > 60 { format!("{}…", &docs[i][..60]) } else { docs[i].clone() }}));
         }
